@@ -66,7 +66,7 @@ theorem InvR.reach {s : State} (h : Reachable Init Step s) : InvR s := by
   | base hi => obtain ⟨n, hn, rfl⟩ := hi; exact InvR.init n
   | tail hr hst ih => exact InvR.step hst (InvS.reach hr) (InvF.reach hr) (InvW.reach hr) ih
 
-/-- `wait_for` returning `false` needs no NoWrap hypothesis: the code re-reads the clock itself -/
+/-- `wait_for` returning `false` does not depend on the futex word at all: the code re-reads the clock itself -/
 def InvRF (s : State) : Prop :=
   ∀ t b st to n, s.result t = some (.waited false b st to n) → b = true ∧ n ≤ s.now ∧ st ≤ n ∧ (n < 2 ^ 63 → st + to ≤ n)
 
